@@ -194,6 +194,48 @@ static void queue_shutdown(Src& s) {
     if (C >= 2) vp::nontrivial(vp::hash_str("shutdown") ^ static_cast<uint64_t>(C * 1000 + P * 100 + static_cast<int>(B)) ^ perturb::cfg().seed.load());
 }
 
+// Many short rounds in which shutdown() is called at the very moment the consumers enter wait_and_pop(): the window between a
+// consumer's last look at the queue and its going to sleep is a few hundred nanoseconds wide, so it has to be tried often. A
+// consumer that misses the wake-up sleeps forever; the engine's watchdog then finds every thread asleep (deadlock).
+static void queue_shutdown_race(Src& s) {
+    const int C = 1 + static_cast<int>(s.draw(4));
+    const int rounds = 100 + static_cast<int>(s.draw(300));
+    const bool with_elements = s.boolean();
+    uint64_t delay_seed = s.draw(1ULL << 32);
+    vp::Rng rng{delay_seed};
+    for (int r = 0; r < rounds; ++r) {
+        osmium::thread::Queue<Elem> q{s.draw(3) == 0 ? 0u : 2u, "race"};
+        std::atomic<int> entering{0};
+        std::atomic<int> received{0};
+        std::vector<std::thread> consumers;
+        for (int c = 0; c < C; ++c) {
+            consumers.emplace_back([&] {
+                for (;;) {
+                    Elem e;
+                    ++entering;
+                    q.wait_and_pop(e);
+                    if (e.producer < 0) {
+                        if (!q.in_use()) return;
+                        continue;
+                    }
+                    ++received;
+                }
+            });
+        }
+        if (with_elements && (r % 3) == 0) q.push(Elem{0, r});
+        while (entering.load() < C) {
+        }
+        volatile unsigned spin = static_cast<unsigned>(rng.below(r % 2 ? 60 : 3000));
+        while (spin > 0) spin = spin - 1;
+        q.shutdown();
+        for (auto& t : consumers) t.join();  // a consumer that was not woken never returns: reported by the watchdog as a deadlock
+        VP_CHECK(!q.in_use(), "queue-shutdown", "in_use() still true after shutdown");
+    }
+    vp::count("queue_shutdown_race_rounds", static_cast<uint64_t>(rounds));
+    vp::count("queue_shutdown_race");
+    if (C >= 2) vp::nontrivial(vp::hash_str("shutdown-race") ^ static_cast<uint64_t>(C * 1000 + rounds) ^ delay_seed);
+}
+
 // ---------------------------------------------------------------- pool
 static void pool_tasks(Src& s) {
     const int baseline_threads = perturb::thread_count();
@@ -327,11 +369,12 @@ static void prop(Src& s) {
     perturb::configure(s.draw(1ULL << 32), inten);
     int cpus[] = {0, 0, 1, 2, 4};
     perturb::set_cpus(cpus[s.draw(5)]);
-    switch (s.weighted({5, 1, 2, 4})) {
+    switch (s.weighted({5, 1, 2, 4, 2})) {
         case 0: queue_pc(s); break;
         case 1: queue_blocking(s); break;
         case 2: queue_shutdown(s); break;
-        default: pool_tasks(s); break;
+        case 3: pool_tasks(s); break;
+        default: queue_shutdown_race(s); break;
     }
     vp::count("perturbation_intensity_" + std::to_string(inten));
     vp::count("sched_points", perturb::cfg().points.exchange(0));
@@ -339,7 +382,7 @@ static void prop(Src& s) {
 }
 
 VP_MAIN(prop, "generated concurrent executions: queues with 1..8 producers x 1..8 consumers, bound in {0,1,2,3,8,100}, 1..2000 elements per producer, consumers using wait_and_pop / try_pop / "
-              "both, shutdown after completion or mid-stream; producer at a full queue; pools of 1..32 workers with value / exception / slow / task-submitting tasks, destruction with "
+              "both, shutdown after completion or mid-stream, 100..400 rounds of shutdown racing with consumers that are just entering wait_and_pop; producer at a full queue; pools of 1..32 workers with value / exception / slow / task-submitting tasks, destruction with "
               "a non-empty queue; every execution under a seeded perturbation of the thread schedule (yield / sleep / spin at the OSMIUM_VERIF_SCHED hook points, five intensities) and a "
               "CPU set of 1/2/4/all cores. Oracle: multiset equality, per-producer order per consumer, size bound + P - 1, exactly-once counters, future values/exceptions, thread count "
               "back at baseline, watchdog for wake-ups. non-trivial = >= 2 producers and consumers / >= 2 workers and tasks; distinct by configuration x perturbation seed")
